@@ -430,6 +430,9 @@ def _resolve_conservation(ck):
             ck.violation("C08.5", "AlignmentResults.resolve:duplicated", w,
                          "a path through the group loop reports rows twice", found=f"separate.extend={sep_all}, "
                          f"separate.append(first)={sep_first}, joined.append={joined}", required="separate xor joined", path=desc)
+    from .c05 import groupby_inputs_sorted
+    n_g = groupby_inputs_sorted(ck, "C08.5", only_functions={"AlignmentResults.resolve"})
+    ck.floor("C08.5 groupby sites of resolve", n_g, 1)
     ck.floor("C08.5 joining paths", n_join, 1)
     ck.floor("C08.5 separating paths", n_sep, 2)
 
